@@ -22,6 +22,9 @@ def shards(tier):
     for geo in ("p2x2", "t2x2"):
         for op in ("add", "dispense", "aspirate"):
             out.append(dict(op=op, sgeo=geo, dgeo=geo, k=1 if op != "aspirate" else 2, steps=1, dev="evo"))
+        for op in ("add", "dispense"):
+            # one call addressing two wells with their own volumes (>= 0) and their own, different compositions
+            out.append(dict(op=op, sgeo=geo, dgeo=geo, k=2, multi=True, steps=1, dev="evo"))
     for dev in ("evo", "fluent"):
         for sg, dg, same in [("p2x2", "p2x2", False), ("t2x2", "p2x2", False), ("p2x2", "t2x2", False), ("p2x2", "p2x2", True), ("t2x2", "t2x2", True)]:
             split = tier == "thorough" or (sg, dg, same) == ("p2x2", "p2x2", False)
@@ -102,13 +105,24 @@ def scenario(ctx, p):
         x = ctx.real("x0", 0, common.BIG)
         g = ctx.real("g", 0, 1)
         inc = {"X": g, "Z": 1 - g}
-        W.named = [(lab.name, well, 1, x)]
-        W.incoming = inc
         W.cfg = (p["op"], well)
-        if direct:
-            lab.add(well, x, compositions=[inc])
+        if p.get("multi"):
+            well1 = ids[-1] if well == ids[0] else ids[0]
+            x1 = ctx.real("x1", 0, common.BIG)
+            inc1 = {"Y": 1.0}
+            W.named = [(lab.name, well, 1, x), (lab.name, well1, 1, x1)]
+            W.incoming = [inc, inc1]
+            if direct:
+                lab.add([well, well1], [x, x1], compositions=[inc, inc1])
+            else:
+                W.wl.dispense(lab, [well, well1], [x, x1], compositions=[inc, inc1])
         else:
-            W.wl.dispense(lab, well, x, compositions=[inc])
+            W.named = [(lab.name, well, 1, x)]
+            W.incoming = [inc]
+            if direct:
+                lab.add(well, x, compositions=[inc])
+            else:
+                W.wl.dispense(lab, well, x, compositions=[inc])
     elif p["op"] == "seq":
         W.p = p
         wlops.run_seq(ctx, W, p["ops"])
@@ -229,14 +243,14 @@ def judge(ctx, p, outcome):
             ctx.prove(ctx.all_of([ctx.eq(fr[n], W.fpre[key].get(n, 0)) for n in sorted(names)]), f"C05: composition of {name}{w} changed although liquid was only removed (or the well was not addressed)")
     # exact mixing for add/dispense of a known composition
     if op in ("add", "dispense"):
-        (rack, wid, _, x), = W.named
-        key = (rack, W.geo[rack].real_of(wid))
-        v = W.pre[key]
-        if ctx.symbolic and ctx.check(ctx_term(ctx, v + x == 0)) == "sat":
-            ctx.reach("empty-destination")
-        for n in sorted(names):
-            f0, g = W.fpre[key].get(n, 0), W.incoming.get(n, 0)
-            ctx.prove(ctx.implies(v + x > 0, ctx.eq(post[key][n] * (v + x), v * f0 + x * g)), f"C05: fraction of {n} after {op} differs from the volume-weighted mixture")
+        for (rack, wid, _, x), incoming in zip(W.named, W.incoming):   # the addressed wells are distinct real wells
+            key = (rack, W.geo[rack].real_of(wid))
+            v = W.pre[key]
+            if ctx.symbolic and ctx.check(ctx_term(ctx, v + x == 0)) == "sat":
+                ctx.reach("empty-destination")
+            for n in sorted(names):
+                f0, g = W.fpre[key].get(n, 0), incoming.get(n, 0)
+                ctx.prove(ctx.implies(v + x > 0, ctx.eq(post[key][n] * (v + x), v * f0 + x * g)), f"C05: fraction of {n} after {op} differs from the volume-weighted mixture")
     # conservation of every component by transfers / distributions
     if op in ("transfer", "distribute", "seq"):
         for n in sorted(names):
